@@ -533,11 +533,16 @@ def r8_names_and_parser_agree(ctx, F, rule='C07-R8'):
     for (lab, t) in sws[0].edges:
         if not isinstance(lab, str):
             continue
-        blocks = nb.reach_under([(sws, lab)], [t])
+        # the arm's own blocks: the name may be yielded there (`Some("ordered")`) or picked there and yielded after
+        # the arms have joined (`let (name, next) = match .. { Ordered(_) => ("ordered", ..), .. }; Some(name)`)
         lits = set()
-        for (i, si, st) in nb.assigns(lambda st: st['rv']['k'] == 'agg' and st['rv'].get('variant') == 'Some'):
-            if i in blocks and st['rv']['ops'] and lit(nb.val(st['rv']['ops'][0])) is not None:
-                lits.add(lit(nb.val(st['rv']['ops'][0])))
+        for (i, si, st) in nb.assigns(lambda st: st['rv']['k'] in ('agg', 'use')):
+            if not nb.edges_dominate([(sws[0].bb, t)], i):
+                continue
+            ops_ = st['rv']['ops'] if st['rv']['k'] == 'agg' else [st['rv']['op']]
+            for o_ in ops_:
+                if o_.get('k') == 'const' and lit(nb.val(o_)) is not None:
+                    lits.add(lit(nb.val(o_)))
         if len(lits) != 1:
             raise AnchorMissing('Network::names: one name for kind %s (found %s)' % (lab, sorted(lits)))
         names[lab] = next(iter(lits))
